@@ -2,7 +2,7 @@
    construct, by induction on the fuel. *)
 From Coq Require Import QArith.
 From HclV Require Import Base.Prelude Cty.Values Cty.Convert Cty.Ops Eval.Impl
-     Eval.MarksNI Eval.MarksNI_Ops Eval.MarksNI_Index Eval.MarksNI_Funcs Eval.MarksNI_Steps.
+     Eval.MarksNI Eval.MarksNI_Ops Eval.MarksNI_Index Eval.MarksNI_Conv Eval.MarksNI_Funcs Eval.MarksNI_Steps.
 Open Scope Z_scope.
 
 Section NI.
@@ -72,11 +72,9 @@ Section NI.
      (2) Either no result carries m below its top level, or both results have static types.  The
          result type is unified from the types of both branches and is VISIBLE in the result (declared
          element types); the type of a selected arm such as [t[s]] may depend on marked data
-         (cond_refuted_elem_type).  In the static alternative, "no structural conversion needed"
-         (cond_ok_ty) is a restriction of the PROOF only (conversions are proved to respect
-         low-equivalence for primitive and dynamic targets). *)
+         (cond_refuted_elem_type). *)
   Definition cond_static (te fe : expr) : Prop :=
-    exists T F, static_ty te T /\ static_ty fe F /\ cond_ok_ty T F.
+    exists T F, static_ty te T /\ static_ty fe F.
   Definition cond_side (te fe : expr) : Prop :=
     nofail te /\ nofail fe /\ (cond_static te fe \/ (no_nested te /\ no_nested fe)).
 
@@ -84,12 +82,22 @@ Section NI.
   Definition nonnull (e : expr) : Prop :=
     forall fuel c a, Cx c -> wf_opt a -> is_null (fst (eval_with idx fuel c a e)) = false.
 
-  (* Side condition of the splat: the source is never a list or a set and never an unknown tuple.
-     (For those sources the TYPE of the result is computed from the types of the results of Each,
-     which the observation relation does not constrain: splat_refuted_elem_type.) *)
-  Definition splat_side (src : expr) : Prop :=
+  (* Side condition of the splat src[*]each: EITHER the source is never a list or a set and never an
+     unknown tuple (then no type is computed from the results of Each), OR the type of each(item)
+     depends only on the type of the item: the declared element type of the resulting list (and the
+     type of an unknown result) is computed from the types of the results of Each and is visible
+     (splat_refuted_elem_type).  Attribute / literal-index traversals of the item, the usual
+     form of Each, satisfy the second alternative (each_ty_stable_trav). *)
+  Definition splat_simple (src : expr) : Prop :=
     forall fuel c a v ds, Cx c -> wf_opt a -> eval_with idx fuel c a src = (v, ds) ->
       has_errors ds = false -> splat_src_ok v.
+  Definition each_ty_stable (each : expr) : Prop :=
+    forall fuel c1 c2 x1 x2 v1 d1 v2 d2,
+      Cx c1 -> Cx c2 -> low_eq m c1 c2 -> funcs_ni m c1 -> leq m x1 x2 -> wf x1 -> wf x2 ->
+      type_of x1 = type_of x2 ->
+      eval_with idx fuel c1 (Some x1) each = (v1, d1) -> eval_with idx fuel c2 (Some x2) each = (v2, d2) ->
+      clean d1 -> clean d2 -> type_of v1 = type_of v2.
+  Definition splat_side (src each : expr) : Prop := splat_simple src \/ each_ty_stable each.
 
   (* e never evaluates to a value that carries m at the top *)
   Definition nostar (e : expr) : Prop :=
@@ -126,7 +134,7 @@ Section NI.
       (forall ke, key = Some ke -> in_fragment ke /\ nonnull ke) ->
       (forall ce, cond = Some ce -> in_fragment ce /\ nonnull ce) ->
       in_fragment (EFor kv vv coll key vl cond group)
-  | F_splat src each : in_fragment src -> in_fragment each -> splat_side src -> in_fragment (ESplat src each)
+  | F_splat src each : in_fragment src -> in_fragment each -> splat_side src each -> in_fragment (ESplat src each)
   | F_obj items : Forall (fun it => in_fragment (fst it) /\ in_fragment (snd it)) items -> in_fragment (EObj items).
 
   (* all values the evaluator produces are well-formed (discharged in MarksNI_Wf.v) *)
@@ -594,19 +602,24 @@ Section NI.
       forall c1 c2 a1 a2 v1 ds1 v2 ds2,
         low_eq m c1 c2 -> leq_opt m a1 a2 -> funcs_ni m c1 -> Cx c1 -> Cx c2 -> wf_opt a1 -> wf_opt a2 ->
         eval_with idx f c1 a1 e1 = (v1, ds1) -> eval_with idx f c2 a2 e2 = (v2, ds2) ->
-        clean ds1 -> clean ds2 -> leq m v1 v2.
+        clean ds1 -> clean ds2 -> leq m v1 v2 /\ wf v1 /\ wf v2.
 
     Lemma ni2_frag e : in_fragment e -> ni2 e e.
-    Proof. intro Fe. exact (IH e Fe). Qed.
-    Lemma ni2_lit w1 w2 : leq m w1 w2 -> ni2 (ELit w1) (ELit w2).
     Proof.
-      intros L c1 c2 a1 a2 v1 ds1 v2 ds2 _ _ _ _ _ _ _ E1 E2 K1 _.
+      intros Fe c1 c2 a1 a2 v1 ds1 v2 ds2 HL HA HF C1 C2 W1 W2 E1 E2 K1 K2. split; [|split].
+      - useIH Fe E1 E2 K1 K2.
+      - eapply Hwf_eval; [exact C1|exact W1|exact Fe|exact E1].
+      - eapply Hwf_eval; [exact C2|exact W2|exact Fe|exact E2].
+    Qed.
+    Lemma ni2_lit w1 w2 : leq m w1 w2 -> wf w1 -> wf w2 -> ni2 (ELit w1) (ELit w2).
+    Proof.
+      intros L Ww1 Ww2 c1 c2 a1 a2 v1 ds1 v2 ds2 _ _ _ _ _ _ _ E1 E2 K1 _.
       destruct f as [|f']; cbn [eval_with] in E1, E2; [injection E1 as <- <-; unclean K1|].
-      injection E1 as <- _. injection E2 as <- _. exact L.
+      injection E1 as <- _. injection E2 as <- _. auto.
     Qed.
 
     Lemma call_fold_rel fnv c1 c2 a1 a2 :
-      params_pd fnv = true ->
+      params_noobj fnv = true ->
       low_eq m c1 c2 -> leq_opt m a1 a2 -> funcs_ni m c1 -> Cx c1 -> Cx c2 -> wf_opt a1 -> wf_opt a2 ->
       forall l1 l2, Forall2 ni2 l1 l2 -> forall i st1 st2,
       length (fst st1) = i -> Forall2 (leq m) (fst st1) (fst st2) -> args_fit fnv i ->
@@ -638,8 +651,8 @@ Section NI.
           (destruct (conv x2 (p_ty p)) as [y2| |] eqn:Y2; try (cbn [snd] in K2'; bad K2')); cbn [fst].
         + rewrite app_length. cbn [length]. lia.
         + apply Forall2_app_inv; [exact Hv|].
-          eapply conv_leq_pd; [eapply param_for_pd; eassumption| |exact Y1|exact Y2].
-          eapply Ne; [exact HL|exact HA|exact HF|exact C1|exact C2|exact W1|exact W2|exact A1|exact A2|exact Ka1|exact Ka2].
+          destruct (Ne c1 c2 a1 a2 x1 ad1 x2 ad2 HL HA HF C1 C2 W1 W2 A1 A2 Ka1 Ka2) as (Lx & Wx1 & Wx2).
+          eapply conv_leq; [exact Lx|exact Wx1|exact Wx2|right; eapply param_for_noobj; eassumption|exact Y1|exact Y2].
         + intros j Hj. destruct (Nat.eq_dec j i) as [->|Hne]; [congruence|]. apply Hfit. lia.
     Qed.
 
@@ -738,7 +751,7 @@ Section NI.
       destruct (negb (is_known x1)).
       { injection E1 as <- _. injection E2 as <- _. apply with_same_marks_leq; [apply leq_refl|exact Lx]. }
       pose proof (marks_of_eq _ _ _ Lx Sx) as Me. pose proof (unmark_fst_leq _ _ _ Lx Sx) as Lu.
-      destruct (wf_unmark _ Wx1) as [Nu _]. unfold marks_of in Me.
+      destruct (wf_unmark _ Wx1) as [Nu Wu1]. destruct (wf_unmark _ Wx2) as [_ Wu2]. unfold marks_of in Me.
       destruct (unmark x1) as [xu1 xm1]. destruct (unmark x2) as [xu2 xm2]. cbn [fst snd] in *. subst xm2.
       pose proof (elements_leq m _ _ Lu Nu) as Le.
       assert (Em : match elements xu2 with [] => xm1 | _ :: _ => [] end = match elements xu1 with [] => xm1 | _ :: _ => [] end).
@@ -747,8 +760,11 @@ Section NI.
       eapply call_tail_ni; [exact Hok| |exact HL|exact HA|exact HF|exact C1|exact C2|exact W1|exact W2|exact E1|exact E2|exact K1|exact K2].
       apply Forall2_app.
       - eapply Forall2_diag; [apply ni2_frag|exact Fi].
-      - clear -Le IH. induction Le as [|p q r s [_ Lv] _ IHl]; cbn [map]; constructor; [|exact IHl].
-        apply ni2_lit. apply with_marks_leq; [exact Lv|apply marks_rel_refl].
+      - pose proof (elements_wf _ Wu1) as We1. pose proof (elements_wf _ Wu2) as We2.
+        clear -Le We1 We2 IH. revert We1 We2. induction Le as [|p q r s [_ Lv] _ IHl]; intros We1 We2; cbn [map]; constructor.
+        + inversion We1 as [|? ? [_ Wp] _]; subst. inversion We2 as [|? ? [_ Wq] _]; subst.
+          apply ni2_lit; [apply with_marks_leq; [exact Lv|apply marks_rel_refl]|apply wf_with_marks, Wp|apply wf_with_marks, Wq].
+        + inversion We1; subst. inversion We2; subst. apply IHl; assumption.
     Qed.
 
     (* ---- conditional ---- *)
@@ -797,19 +813,15 @@ Section NI.
         apply stars_leq; apply with_marks_star; [apply M1|apply M2]; apply G; assumption.
       - apply orb_false_iff in Z as [Z Z3]. apply orb_false_iff in Z as [Z1 Z2].
         (* what the side condition (2) provides *)
-        assert (Side : cond_uni tv2 fv2 = cond_uni tv1 fv1 /\
-                       (tc1 = true -> pd_ty rt1 = true \/ prim_head (fst (unmark tv1)) = true \/ fst (unmark tv1) = fst (unmark tv2)) /\
-                       (fc1 = true -> pd_ty rt1 = true \/ prim_head (fst (unmark fv1)) = true \/ fst (unmark fv1) = fst (unmark fv2))).
-        { destruct Hside as [(T & F & St & Sf & Hty)|[Pt Pf]].
+        assert (Wt2 : wf tv2) by (eapply Hwf_eval; [exact C2|exact W2|exact Ft|exact A2]).
+        assert (Wf2 : wf fv2) by (eapply Hwf_eval; [exact C2|exact W2|exact Ff|exact B2]).
+        assert (Side : cond_uni tv2 fv2 = cond_uni tv1 fv1 /\ type_of tv1 = type_of tv2 /\ type_of fv1 = type_of fv2).
+        { destruct Hside as [(T & F & St & Sf)|[Pt Pf]].
           - pose proof (St f c1 a1 tv1 td1 C1 W1 A1 Et1) as Tt1. pose proof (St f c2 a2 tv2 td2 C2 W2 A2 Et2) as Tt2.
             pose proof (Sf f c1 a1 fv1 fd1 C1 W1 B1 Ef1) as Tf1. pose proof (Sf f c2 a2 fv2 fd2 C2 W2 B2 Ef2) as Tf2.
-            assert (Hok : cond_ok_ty (type_of tv1) (type_of fv1)) by (rewrite Tt1, Tf1; exact Hty).
-            destruct (cond_uni_safe _ _ _ _ _ Un1 Hok) as [Ht' Hf'].
-            split; [|split].
-            + unfold cond_uni. rewrite <- (is_dyn_null_leq _ _ _ Lt), <- (is_dyn_null_leq _ _ _ Lf), Tt1, Tt2, Tf1, Tf2.
-              reflexivity.
-            + intro H. destruct (Ht' H) as [X|X]; auto.
-            + intro H. destruct (Hf' H) as [X|X]; auto.
+            split; [|split; congruence].
+            unfold cond_uni. rewrite <- (is_dyn_null_leq _ _ _ Lt), <- (is_dyn_null_leq _ _ _ Lf), Tt1, Tt2, Tf1, Tf2.
+            reflexivity.
           - pose proof (Pt f c1 a1 tv1 td1 C1 W1 A1 Et1) as Pt1. pose proof (Pf f c1 a1 fv1 fd1 C1 W1 B1 Ef1) as Pf1.
             pose proof (leq_deep_eq m _ _ (unmark_fst_leq _ _ _ Lt Z2) Pt1) as Eu.
             pose proof (leq_deep_eq m _ _ (unmark_fst_leq _ _ _ Lf Z3) Pf1) as Ev.
@@ -819,11 +831,11 @@ Section NI.
             assert (Ef : fv1 = fv2).
             { pose proof (marks_of_eq _ _ _ Lf Z3) as Me. unfold marks_of in Me. clear -Lf Ev Me.
               leq_heads Lf; cbn [unmark fst snd] in *; congruence. }
-            subst tv2 fv2. split; [reflexivity|]. split; intros _; right; right; reflexivity. }
-        destruct Side as (Eu & Ht' & Hf').
+            subst tv2 fv2. repeat split; reflexivity. }
+        destruct Side as (Eu & Tt & Tf).
         rewrite Eu, Un1 in Un2. injection Un2 as <- <- <-.
-        eapply cond_tail_leq; [exact Lc|exact Lt|exact Lf|exact Z1|exact Z2|exact Z3|exact Wc
-                              |exact Ht'|exact Hf'|exact E1|exact E2|exact K1|exact K2].
+        eapply cond_tail_leq; [exact Lc|exact Lt|exact Lf|exact Z1|exact Z2|exact Z3|exact Wc|exact Wt|exact Wt2|exact Wf|exact Wf2
+                              |intros _; left; exact Tt|intros _; left; exact Tf|exact E1|exact E2|exact K1|exact K2].
     Qed.
 
     (* ---- for expressions: tuple result ---- *)
@@ -1307,8 +1319,50 @@ Section NI.
           [exact HL|exact Lv|exact HF|exact C1|exact C2|exact Wp|exact Wq|exact A1|exact A2|exact K1a|exact K2a].
     Qed.
 
+    Lemma frame_ok c1 c2 :
+      low_eq m c1 c2 -> funcs_ni m c1 -> Cx c1 -> Cx c2 ->
+      low_eq m (mkFrame None None :: c1) (mkFrame None None :: c2) /\ funcs_ni m (mkFrame None None :: c1) /\
+      Cx (mkFrame None None :: c1) /\ Cx (mkFrame None None :: c2).
+    Proof.
+      intros HL HF C1 C2. split; [|split; [|split]].
+      - constructor; [split; [exact I|reflexivity]|exact HL].
+      - intros fr fs name f0 [<-|I0] F G; [discriminate F|]. eapply HF; eassumption.
+      - apply Cx_frame, C1.
+      - apply Cx_frame, C2.
+    Qed.
+
+    (* resultTy() is the same in both runs when the type of Each's result depends on the item type only *)
+    Lemma splat_rt_stable each c1 c2 sty :
+      each_ty_stable each -> low_eq m c1 c2 -> funcs_ni m c1 -> Cx c1 -> Cx c2 ->
+      clean (snd (splat_result_ty (fun cc an => eval_with idx f cc an each) c1 sty)) ->
+      clean (snd (splat_result_ty (fun cc an => eval_with idx f cc an each) c2 sty)) ->
+      fst (splat_result_ty (fun cc an => eval_with idx f cc an each) c1 sty)
+      = fst (splat_result_ty (fun cc an => eval_with idx f cc an each) c2 sty).
+    Proof.
+      intros Hst HL HF C1 C2 K1 K2. destruct (frame_ok c1 c2 HL HF C1 C2) as (HL' & HF' & C1' & C2').
+      assert (One : forall et v1 e1 v2 e2,
+                eval_with idx f (mkFrame None None :: c1) (Some (VUnk et rf_none)) each = (v1, e1) ->
+                eval_with idx f (mkFrame None None :: c2) (Some (VUnk et rf_none)) each = (v2, e2) ->
+                clean e1 -> clean e2 -> type_of v1 = type_of v2).
+      { intros et v1 e1 v2 e2 Y1 Y2 Ke1 Ke2.
+        eapply (Hst f _ _ (VUnk et rf_none) (VUnk et rf_none)); [exact C1'|exact C2'|exact HL'|exact HF'|apply leq_refl
+                 |reflexivity|reflexivity|reflexivity|exact Y1|exact Y2|exact Ke1|exact Ke2]. }
+      unfold splat_result_ty in *. destruct sty; try reflexivity.
+      - destruct (eval_with idx f (mkFrame None None :: c1) (Some (VUnk sty rf_none)) each) as [v1 e1] eqn:Y1.
+        destruct (eval_with idx f (mkFrame None None :: c2) (Some (VUnk sty rf_none)) each) as [v2 e2] eqn:Y2.
+        cbn [fst snd] in *. f_equal. eapply One; eassumption.
+      - destruct (eval_with idx f (mkFrame None None :: c1) (Some (VUnk sty rf_none)) each) as [v1 e1] eqn:Y1.
+        destruct (eval_with idx f (mkFrame None None :: c2) (Some (VUnk sty rf_none)) each) as [v2 e2] eqn:Y2.
+        cbn [fst snd] in *. f_equal. eapply One; eassumption.
+      - cbn [fst snd] in *. f_equal. induction ts as [|et r IHr]; cbn [map concat] in *; [reflexivity|].
+        apply clean_app in K1 as [K1a K1b]. apply clean_app in K2 as [K2a K2b].
+        destruct (eval_with idx f (mkFrame None None :: c1) (Some (VUnk et rf_none)) each) as [v1 e1] eqn:Y1.
+        destruct (eval_with idx f (mkFrame None None :: c2) (Some (VUnk et rf_none)) each) as [v2 e2] eqn:Y2.
+        cbn [fst snd] in *. f_equal; [eapply One; eassumption|apply IHr; assumption].
+    Qed.
+
     Lemma splat_ni src each :
-      in_fragment src -> in_fragment each -> splat_side src -> ni_at (S f) (ESplat src each).
+      in_fragment src -> in_fragment each -> splat_side src each -> ni_at (S f) (ESplat src each).
     Proof.
       intros Fs Fe Hside. intros c1 c2 a1 a2 v1 ds1 v2 ds2 HL HA HF C1 C2 W1 W2 E1 E2 K1 K2.
       rewrite eval_splat_unfold in E1, E2.
@@ -1324,8 +1378,6 @@ Section NI.
       assert (Sc2 : is_star m s2 = false) by (rewrite <- (leq_is_star _ _ _ Ls); exact Sc).
       destruct (leq_nostar_facts _ _ _ Ls Sc Ws1) as (Fn & Fk & Ft).
       pose proof (is_seq_ty_leq _ _ _ Ls Sc Ws1) as Fq. pose proof (splat_upg_leq _ _ _ Ls Sc Ws1) as Fu.
-      pose proof (Hside f c1 a1 s1 d1 C1 W1 A1 (proj1 K01)) as Ok1.
-      pose proof (Hside f c2 a2 s2 d2 C2 W2 A2 (proj1 K02)) as Ok2.
       destruct (is_null s1) eqn:N1.
       { assert (N2' : is_null s2 = true) by (symmetry; exact Fn).
         unfold splat_tail in E1, E2. rewrite (proj1 K01), N1 in E1. rewrite (proj1 K02), N2', <- Fq in E2.
@@ -1336,6 +1388,82 @@ Section NI.
         assert (D2' : ty_eqb (type_of s2) TDyn = true) by (symmetry; exact Ft).
         unfold splat_tail in E1, E2. rewrite (proj1 K01), N1, D1 in E1. rewrite (proj1 K02), N2', D2' in E2.
         injection E1 as <- _. injection E2 as <- _. apply with_same_marks_leq; [apply leq_refl|exact Ls]. }
+      assert (N2 : is_null s2 = false) by (symmetry; exact Fn).
+      assert (D2 : ty_eqb (type_of s2) TDyn = false) by (symmetry; exact Ft).
+      pose proof (seq_kind_leq _ _ _ Ls Sc Ws1) as Fkd.
+      destruct (splat_okb s1) eqn:Okb.
+      2:{ (* a list or set source, or an unknown tuple: the type of Each's results matters *)
+          destruct Hside as [Hs|Hst].
+          { exfalso. pose proof (Hs f c1 a1 s1 d1 C1 W1 A1 (proj1 K01)) as X. apply splat_okb_ok in X. congruence. }
+          assert (Hq : is_seq_ty (type_of s1) = true).
+          { unfold splat_okb in Okb. destruct (type_of s1); try discriminate Okb; reflexivity. }
+          assert (Hq2 : is_seq_ty (type_of s2) = true) by (rewrite <- Fq; exact Hq).
+          destruct (is_known s1) eqn:Kn.
+          - (* known list / set *)
+            assert (Kn2 : is_known s2 = true) by (rewrite <- Fk; reflexivity).
+            pose proof (unmark_fst_leq _ _ _ Ls Sc) as Lu. pose proof (marks_of_eq _ _ _ Ls Sc) as Me.
+            destruct (wf_unmark _ Ws1) as [Nu1 Wu1]. destruct (wf_unmark _ Ws2) as [Nu2 Wu2].
+            assert (Shape : exists t, (is_ls_ty (type_of s1) = true /\ is_ls_ty (type_of s2) = true /\ type_of s1 = type_of s2) /\
+                       Forall (fun kv : val * val => type_of (snd kv) = t) (elements (fst (unmark s1))) /\
+                       Forall (fun kv : val * val => type_of (snd kv) = t) (elements (fst (unmark s2)))).
+            { rewrite is_known_hd in Kn. rewrite is_null_hd in N1. rewrite (type_of_unmark s1), (type_of_unmark s2).
+              unfold splat_okb in Okb. rewrite is_known_hd, (type_of_unmark s1) in Okb.
+              revert Lu Nu1 Wu1 Wu2 Kn N1 Okb. generalize (fst (unmark s1)) (fst (unmark s2)). intros u1 u2 Lu Nu1 Wu1 Wu2 Kn Nn Okb.
+              destruct (type_of u1) eqn:T1; try discriminate Okb; try congruence.
+              - destruct (known_list_shape u1 t Nu1 T1 Kn Nn) as [l1 ->].
+                leq_heads Lu. injection Lu as -> _. exists t0. cbn [type_of is_ls_ty]. split; [auto|].
+                split; apply elements_typed_list; assumption.
+              - destruct (known_set_shape u1 t Nu1 T1 Kn Nn) as [l1 ->].
+                leq_heads Lu. injection Lu as -> _. exists t0. cbn [type_of is_ls_ty]. split; [auto|].
+                split; apply elements_typed_set; assumption. }
+            destruct Shape as (t & (Hl1 & Hl2 & Tu) & Ty1 & Ty2).
+            unfold marks_of in Me.
+            destruct (unmark s1) as [u1 sm1] eqn:U1. destruct (unmark s2) as [u2 sm2] eqn:U2. cbn [fst snd] in *. subst sm2.
+            pose proof (splat_tail_list _ c1 s1 d1 u1 sm1 v1 ds1 (proj1 K01) N1 D1 Hl1 Kn U1 E1 K1) as F1.
+            pose proof (splat_tail_list _ c2 s2 d2 u2 sm1 v2 ds2 (proj1 K02) N2 D2 Hl2 Kn2 U2 E2 K2) as F2.
+            pose proof (elements_leq m _ _ Lu Nu1) as Le.
+            pose proof (elements_wf _ Wu1) as We1. pose proof (elements_wf _ Wu2) as We2.
+            assert (Kr : clean (concat (map snd (map (fun kv => eval_with idx f c1 (Some (snd kv)) each) (elements u1)))) /\
+                         clean (concat (map snd (map (fun kv => eval_with idx f c2 (Some (snd kv)) each) (elements u2))))).
+            { split.
+              - destruct (map fst (map _ (elements u1))) as [|a0 r0]; [destruct F1 as [_ ->]|destruct F1 as (_ & _ & ->)].
+                + apply clean_app in K1 as [K1 _]. apply clean_app in K1 as [_ K1]. exact K1.
+                + apply clean_app in K1 as [_ K1]. exact K1.
+              - destruct (map fst (map _ (elements u2))) as [|a0 r0]; [destruct F2 as [_ ->]|destruct F2 as (_ & _ & ->)].
+                + apply clean_app in K2 as [K2 _]. apply clean_app in K2 as [_ K2]. exact K2.
+                + apply clean_app in K2 as [_ K2]. exact K2. }
+            destruct Kr as [Kr1 Kr2].
+            pose proof (map_ev_anon_leq each c1 c2 Fe HL HF C1 C2 _ _ Le We1 We2 Kr1 Kr2) as Lv.
+            destruct Le as [|p q r s [_ Lpq] Lrs].
+            + (* empty: the element type comes from the probe *)
+              cbn [elements map] in F1, F2. destruct F1 as [-> ->]. destruct F2 as [-> ->].
+              apply clean_app in K1 as [_ Kt1]. apply clean_app in K2 as [_ Kt2].
+              rewrite <- Tu in Kt2 |- *.
+              rewrite (splat_rt_stable each c1 c2 (type_of s1) Hst HL HF C1 C2 Kt1 Kt2). apply leq_refl.
+            + cbn [map] in F1, F2, Lv.
+              destruct (eval_with idx f c1 (Some (snd p)) each) as [y1 e1] eqn:Y1.
+              destruct (eval_with idx f c2 (Some (snd q)) each) as [y2 e2] eqn:Y2. cbn [fst snd] in *.
+              destruct F1 as (_ & -> & _). destruct F2 as (_ & -> & _).
+              inversion We1 as [|? ? [_ Wp] _]; subst. inversion We2 as [|? ? [_ Wq] _]; subst.
+              inversion Ty1 as [|? ? Tp _]; subst. inversion Ty2 as [|? ? Tq _]; subst.
+              cbn [map concat] in Kr1, Kr2. apply clean_app in Kr1 as [Ke1 _]. apply clean_app in Kr2 as [Ke2 _].
+              rewrite Y1 in Ke1. rewrite Y2 in Ke2. cbn [snd] in Ke1, Ke2.
+              assert (Ty : type_of y1 = type_of y2).
+              { eapply (Hst f c1 c2 (snd p) (snd q)); [exact C1|exact C2|exact HL|exact HF|exact Lpq|exact Wp|exact Wq
+                                                      |congruence|exact Y1|exact Y2|exact Ke1|exact Ke2]. }
+              rewrite Ty. apply with_marks_leq; [|apply marks_rel_refl]. apply leq_list. exact Lv.
+          - (* unknown sequence: the values are equal, the result type comes from the probes *)
+            pose proof (leq_unknown_eq _ _ _ Ls Sc Ws1 Kn) as <-.
+            rewrite (splat_tail_unknown _ c1 s1 d1 (proj1 K01) N1 D1 Hq Kn) in E1.
+            rewrite (splat_tail_unknown _ c2 s1 d2 (proj1 K02) N1 D1 Hq Kn) in E2.
+            injection E1 as <- <-. injection E2 as <- <-.
+            apply clean_app in K1 as [_ Kt1]. apply clean_app in K2 as [_ Kt2].
+            rewrite (splat_rt_stable each c1 c2 (type_of s1) Hst HL HF C1 C2 Kt1 Kt2). apply leq_refl. }
+      assert (Ok1 : splat_src_ok s1) by (apply splat_okb_ok; exact Okb).
+      assert (Ok2 : splat_src_ok s2).
+      { apply splat_okb_ok. rewrite <- Okb. unfold splat_okb.
+        destruct (type_of s1), (type_of s2); cbn [seq_kind] in Fkd; try discriminate Fkd; try reflexivity.
+        symmetry. exact Fk. }
       (* the known, non-list path *)
       assert (NF : forall s0 d0 v d (ev : ctx -> option val -> val * list diag) c,
                  wf s0 -> splat_src_ok s0 -> has_errors d0 = false -> is_null s0 = false -> ty_eqb (type_of s0) TDyn = false ->
@@ -1368,8 +1496,6 @@ Section NI.
           + unfold marks_of. destruct (unmark s0); reflexivity.
           + intros t T. rewrite T in Ok. exact Ok.
           + intros t T. rewrite T in Ok. exact Ok. }
-      assert (N2 : is_null s2 = false) by (symmetry; exact Fn).
-      assert (D2 : ty_eqb (type_of s2) TDyn = false) by (symmetry; exact Ft).
       destruct (NF s1 d1 v1 ds1 _ c1 Ws1 Ok1 (proj1 K01) N1 D1 E1 K1) as (su1 & sm1 & Hu1 & -> & -> & R1).
       destruct (NF s2 d2 v2 ds2 _ c2 Ws2 Ok2 (proj1 K02) N2 D2 E2 K2) as (su2 & sm2 & Hu2 & -> & -> & R2).
       rewrite <- Fq, <- Fk, <- Fu in R2. rewrite <- Fq in Hu2.
@@ -1417,5 +1543,25 @@ Section NI.
       + apply (for_ni f IH); assumption.
       + apply (splat_ni f IH); assumption.
       + apply (objcons_ni f IH); assumption.
+  Qed.
+  (* the usual forms of Each: the item itself, or an attribute / literal-index traversal of it *)
+  Lemma each_ty_stable_anon : each_ty_stable EAnon.
+  Proof.
+    intros fuel c1 c2 x1 x2 v1 d1 v2 d2 _ _ _ _ _ _ _ T E1 E2 K1 _.
+    destruct fuel; cbn [eval_with] in E1, E2; [injection E1 as <- <-; unclean K1|].
+    injection E1 as <- _. injection E2 as <- _. exact T.
+  Qed.
+
+  Lemma each_ty_stable_trav steps : each_ty_stable (ERelTrav EAnon steps).
+  Proof.
+    intros fuel c1 c2 x1 x2 v1 d1 v2 d2 _ _ _ _ _ W1 W2 T E1 E2 K1 K2.
+    destruct fuel as [|f]; cbn [eval_with] in E1, E2; [injection E1 as <- <-; unclean K1|].
+    destruct f as [|f]; cbn [eval_with] in E1, E2.
+    { destruct (traverse_rel steps dyn_val []) as [r e]. injection E1 as <- <-. unclean K1. }
+    destruct (traverse_rel steps x1 []) as [r1 e1] eqn:T1. destruct (traverse_rel steps x2 []) as [r2 e2] eqn:T2.
+    injection E1 as <- <-. injection E2 as <- <-. cbn [app] in K1, K2.
+    pose proof (traverse_rel_type steps x1 [] r1 e1 W1 T1 K1) as A.
+    pose proof (traverse_rel_type steps x2 [] r2 e2 W2 T2 K2) as B.
+    rewrite T in A. congruence.
   Qed.
 End NI.
